@@ -11,9 +11,9 @@ Proof. intros s o. unfold step, reset. cbn [enabled]. destruct (op_enabled _ o);
 
 Example C09_example :
   let s := step (run cfg2 tr_full) (LOp OpLock) in
-  res (step s (LOp (OpApply 1 false false w_sp CbNone CbNone None))) = RErr ErrPoolIsLocked /\
-  res (step s (LOp (OpApply 1 false true w_sp CbNone CbNone None))) = RErr ErrNotCoroutineFunction /\
-  res (step (run cfg2 tr_full) (LOp (OpApply 1 false false w_sp CbNone CbNone (Some (GGen 0 0)))))
+  res (step s (LOp (OpApply 1 [] false w_sp CbNone CbNone None))) = RErr ErrPoolIsLocked /\
+  res (step s (LOp (OpApply 1 [] true w_sp CbNone CbNone None))) = RErr ErrNotCoroutineFunction /\
+  res (step (run cfg2 tr_full) (LOp (OpApply 1 [] false w_sp CbNone CbNone (Some (GGen 0 0)))))
   = RErr ErrGroupExists.
 Proof. vm_compute. repeat split; reflexivity. Qed.
 
